@@ -6,7 +6,7 @@
 //! order given by the real `shuffle` applied with a clone of the generator). `sh=` reports
 //! whether every asset's book equals its shadow — the model-free oracle of C08 and C14.
 
-use crate::obs::{levels_s, observe};
+use crate::obs::{levels_s, observe, visible};
 use crate::proto::{opt, side_of, Ev};
 use bourse_book::types::Level2Data;
 use bourse_book::{Market, OrderBook, OrderError};
@@ -188,7 +188,7 @@ impl<const L: usize, E: EnvLike<L>> EnvLive<L, E> {
     }
 
     fn shadows_equal(&self) -> bool {
-        (0..self.env.n_assets()).all(|a| observe(self.env.book(a), self.trading) == observe(&self.shadows[a], self.trading))
+        (0..self.env.n_assets()).all(|a| visible(&observe(self.env.book(a), self.trading)) == visible(&observe(&self.shadows[a], self.trading)))
     }
 
     pub fn step(&mut self, op: &EOp) -> String {
@@ -618,7 +618,7 @@ impl<const A: usize, const L: usize> MarketLive<A, L> {
             MOp::Reload(m) => { if let Err(e) = self.reload(m) { sh = format!("RELOAD_ERR:{}", e.replace(' ', "_")); } }
         }
         if sh == "ok" {
-            let eq = (0..A).all(|a| observe(self.market.get_order_book(a), self.tradings[a]) == observe(&self.shadows[a], self.tradings[a]));
+            let eq = (0..A).all(|a| visible(&observe(self.market.get_order_book(a), self.tradings[a])) == visible(&observe(&self.shadows[a], self.tradings[a])));
             if !eq { sh = "DIVERGE".into(); }
         }
         let q = match self.queries_ok() { None => "ok".to_string(), Some(n) => format!("BAD:{}", n) };
